@@ -7,7 +7,7 @@
 (*   inscription template, something else, or not recorded.                                  *)
 (*   quote == [ss, sb, ds, db] : standard and data rate as satoshis per bytes (sb, db > 0)   *)
 (* All quantities are small enough for TLC integers (the drivers keep bytes*rate < 2^31).    *)
-EXTENDS Bytes
+EXTENDS ScriptClass
 
 Sum(f(_), n) == FoldLeft(LAMBDA a, k : a + f(k), 0, Idx(n))
 SumIn(t) == Sum(LAMBDA k : t.ins[k].sats, Len(t.ins))
@@ -25,9 +25,10 @@ IsDataHead(h) == (Len(h) >= 1 /\ h[1] = 106) \/ (Len(h) >= 2 /\ h[1] = 0 /\ h[2]
 IsP2PKHTemplate(s) == Len(s) = 25 /\ s[1] = 118 /\ s[2] = 169 /\ s[3] = 20 /\ s[24] = 136 /\ s[25] = 172
 OrdEnvelopeHead == <<0, 99, 3, 111, 114, 100, 81>>          \* OP_FALSE OP_IF push("ord") OP_1
 IsInscriptionTemplate(s) == Len(s) > 32 /\ IsP2PKHTemplate(SubSeq(s, 1, 25)) /\ SubSeq(s, 26, 32) = OrdEnvelopeHead
+\* what the size estimate supports: the exact P2PKH template, or what the library's inscription test accepts
 KindOf(present, s) == IF ~present THEN "none"
                       ELSE IF IsP2PKHTemplate(s) THEN "p2pkh"
-                      ELSE IF IsInscriptionTemplate(s) THEN "inscr" ELSE "other"
+                      ELSE IF LibInscription(s) THEN "inscr" ELSE "other"
 
 \* ---- estimate: unsigned inputs are assumed to get a 107-byte unlocking script -------------------
 UnlockEstimate == 107
